@@ -21,6 +21,7 @@ HARNESS = os.path.join(ROOT, "harness")
 BUILD = os.path.join(ROOT, ".build")
 TARGET = os.path.join(BUILD, "target")
 REPO = "/repo"
+CURRENT_TIER = "quick"
 ALLOWED_AXIOMS = {"propext", "Classical.choice", "Quot.sound"}
 FORBIDDEN = re.compile(
     r"\bsorry\b|\badmit\b|^\s*axiom\s|\bnative_decide\b|\bbv_decide\b|implemented_by|\bunsafe\s|maxHeartbeats\s+0"
@@ -217,6 +218,12 @@ def prove(prop, extra_modules=()):
     hits = forbidden_scan()
     for h in hits:
         failed.append(("forbidden-token", h))
+    if CURRENT_TIER == "thorough":
+        # thorough tier: the compiled theorem module is replayed by leanchecker, the toolchain's independent re-checker of .olean files
+        with Lock("lake"):
+            p = run(["lake", "env", "leanchecker", module], cwd=LEAN, timeout=1800)
+        if p.returncode != 0:
+            failed.append(("leanchecker", ((p.stdout or "") + (p.stderr or ""))[-400:] or f"exit status {p.returncode}"))
     return dict(obligations=len(thms), discharged=len(thms) - len([f for f in failed if f[0] != "forbidden-token"]),
                 failed=failed, log=log, driver_ok=True, theorems=thms, axioms=axioms, build_ok=True)
 
@@ -424,6 +431,8 @@ class Ctx:
     """Per-run context: builds, binaries, work dir."""
 
     def __init__(self, prop, tier, seed):
+        global CURRENT_TIER
+        CURRENT_TIER = tier
         self.prop, self.tier, self.seed = prop, tier, seed
         self.work = os.path.join(BUILD, "run", prop)
         os.makedirs(self.work, exist_ok=True)
